@@ -2,7 +2,7 @@
 (* Bounded instances of Run.tla.  Spawn orders are fixed: validators and blocks are interchangeable,
    so a permutation of the order is the same as a permutation of the outcome assignment, which
    TLC explores anyway. *)
-EXTENDS Run
+EXTENDS Run, Json
 
 CONSTANTS NSync, NLua, NAi, WithEmptyAttr
 
@@ -33,4 +33,18 @@ MCTaskOutcomes == [k \in {"lua", "ai"} |->
    THEN {[k |-> "nil"], [k |-> "str", sev |-> 1], [k |-> "str", sev |-> 2], [k |-> "err"]}
         \cup (IF WithEmptyAttr THEN {[k |-> "emptyattr"]} ELSE {})
    ELSE {[k |-> "ok"], [k |-> "text", sev |-> 1], [k |-> "fault"], [k |-> "nokey"]}]
+
+\* One JSON line per finished state: the outcome assignment (scenario) and the verdict every
+\* interleaving must produce for it (Deterministic).  The conformance harness de-duplicates.
+SeqOfMap(m) == [f \in DOMAIN m |-> m[f]]
+Emit == Finished => PrintT(<<"CASE", ToJson(
+          [sync   |-> [k \in 1..Len(SyncOrder) |->
+                         IF result[SyncOrder[k]].st = "ok"
+                         THEN [st |-> "ok", f1 |-> Get(result[SyncOrder[k]].m, "f1"), f2 |-> Get(result[SyncOrder[k]].m, "f2")]
+                         ELSE [st |-> result[SyncOrder[k]].st, f1 |-> <<>>, f2 |-> <<>>]],
+           tasks  |-> [a \in AV |-> [k \in 1..Len(BlocksOf[a]) |->
+                         [b |-> BlocksOf[a][k], file |-> FileOf[BlocksOf[a][k]], ret |-> ret[BlocksOf[a][k]]]]],
+           haskey |-> HasKey,
+           final  |-> final, exit |-> exit,
+           f1 |-> Get(report, "f1"), f2 |-> Get(report, "f2")])>>)
 =============================================================================
